@@ -2,7 +2,7 @@
     Only statements, [exact], and [Print Assumptions]. Model: model/Tx.v; proofs: proofs/TxProofs.v. *)
 From Coq Require Import List NArith.
 From Coq Require Import Strings.Byte.
-From GoBT Require Import lib.Bytes lib.Parse lib.VarInt lib.Sha256 model.Tx proofs.TxProofs.
+From GoBT Require Import lib.Bytes lib.Parse lib.VarInt lib.Sha256 model.Tx proofs.TxProofs proofs.AuditATx.
 Import ListNotations.
 Local Open Scope N_scope.
 
@@ -30,7 +30,10 @@ Theorem C01_ext_roundtrip : forall t rest, wf_tx t ->
 Proof. exact tx_ext_roundtrip. Qed.
 Print Assumptions C01_ext_roundtrip.
 
-(** re-serialising what was parsed reproduces the bytes exactly *)
+(** re-serialising what was parsed reproduces the bytes exactly.
+    (On their own these two hold by construction of the model: [strip_tx] / [norm_tx] only change fields the
+    respective serialisation does not read; the clause is their composition with the round trips above, and,
+    for every ACCEPTED byte string, [C01_parse_serialise_parse] below.) *)
 Theorem C01_reserialise_std : forall t, tx_bytes false (strip_tx t) = tx_bytes false t.
 Proof. exact reserialise_std. Qed.
 Print Assumptions C01_reserialise_std.
@@ -80,10 +83,68 @@ Theorem C01_clone : forall t, wf_tx t -> ~ ambiguous t -> clone t = ROk t.
 Proof. exact clone_eq. Qed.
 Print Assumptions C01_clone.
 
-(** the transaction id is the byte-reversed double SHA-256 of the standard serialisation *)
+(** the transaction id is the byte-reversed double SHA-256 of the standard serialisation
+    (holds by construction of the model: [txid] is defined this way; the clause - that the Go TxID/TxIDBytes
+    compute this, on the object as it now is - is carried by the correspondence) *)
 Theorem C01_txid_def : forall t, txid t = rev (sha256 (sha256 (tx_bytes false t))).
 Proof. exact txid_def. Qed.
 Print Assumptions C01_txid_def.
+
+(** * what holds of EVERY byte string the decoder accepts (audit A) *)
+
+(** whatever the decoder returns is a well-formed transaction (32-byte previous txids, Go field ranges, counts
+    and script lengths below 2^64), so every theorem above that asks for [wf_tx] applies to parsed transactions *)
+Theorem C01_parsed_is_wf : forall bs p n rest, read_tx bs = POk p n rest -> wf_tx (p_tx p).
+Proof. exact read_tx_wf. Qed.
+Print Assumptions C01_parsed_is_wf.
+
+(** a result reported as standard format is never the excluded ambiguous shape *)
+Theorem C01_parsed_std_not_ambiguous : forall bs p n rest,
+  read_tx bs = POk p n rest -> p_ext p = false -> ~ ambiguous (p_tx p).
+Proof. exact parsed_std_not_ambiguous. Qed.
+Print Assumptions C01_parsed_std_not_ambiguous.
+
+(** the flag [p_min] of [C01_parse_canonical] means exactly "the accepted bytes are their own re-serialisation
+    in the format they arrived in": not stricter, not laxer *)
+Theorem C01_canonical_iff : forall bs p n rest, read_tx bs = POk p n rest ->
+  (p_min p = true <-> bs = tx_bytes (p_ext p) (p_tx p) ++ rest).
+Proof. exact canonical_iff. Qed.
+Print Assumptions C01_canonical_iff.
+
+(** ... and for a single length prefix: the flag is true iff the prefix is the shortest encoding of its value *)
+Theorem C01_varint_minimal_iff : forall bs v m n rest, read_varint bs = POk (v, m) n rest ->
+  (m = true <-> bs = varint_bytes v ++ rest).
+Proof. exact varint_minimal_iff. Qed.
+Print Assumptions C01_varint_minimal_iff.
+
+(** parse -> serialise -> parse: every accepted byte string, minimally encoded or not, re-serialises (in the
+    format it arrived in) to bytes that parse back, consumed exactly and whatever follows them, to the same
+    serialisable content, now flagged minimal *)
+Theorem C01_parse_serialise_parse : forall bs p n rest, read_tx bs = POk p n rest -> forall rest',
+  exists q, read_tx (tx_bytes (p_ext p) (p_tx p) ++ rest') = POk q (lenN (tx_bytes (p_ext p) (p_tx p))) rest' /\
+            p_ext q = p_ext p /\ p_min q = true /\ tx_bytes (p_ext p) (p_tx q) = tx_bytes (p_ext p) (p_tx p).
+Proof. exact parse_serialise_parse. Qed.
+Print Assumptions C01_parse_serialise_parse.
+
+(** block lists (Txs.ReadFrom): an accepted list is consumed to exactly its end ... *)
+Theorem C01_txs_consumed_exactly : forall bs l m n rest,
+  read_txs bs = POk (l, m) n rest -> exists pre, bs = pre ++ rest /\ n = lenN pre /\ n <= lenN bs.
+Proof. exact read_txs_consumes_exactly. Qed.
+Print Assumptions C01_txs_consumed_exactly.
+
+(** ... and, when all its length prefixes (the count included) are minimal, re-serialises - every element in the
+    format it arrived in - to the identical bytes *)
+Theorem C01_txs_canonical : forall bs l n rest, read_txs bs = POk (l, true) n rest ->
+  bs = txs_bytes (map parsed_item l) ++ rest /\ n = lenN (txs_bytes (map parsed_item l)).
+Proof. exact read_txs_canonical. Qed.
+Print Assumptions C01_txs_canonical.
+
+(** non-vacuity: a byte string with a NON-minimal input count (fd 01 00) is accepted, flagged, consumed exactly *)
+Example C01_nonminimal_accepted :
+  let nm := [x01;x00;x00;x00] ++ [xfd;x01;x00] ++ repeat_byte 32 xaa ++ [x00;x00;x00;x00] ++ [x01;x51] ++
+            [xff;xff;xff;xff] ++ [x01] ++ [x01;x00;x00;x00;x00;x00;x00;x00] ++ [x00] ++ [x00;x00;x00;x00] ++ [x99] in
+  match read_tx nm with POk p n rest => (p_min p, p_ext p, n, rest) = (false, false, 63, [x99]) | _ => False end.
+Proof. vm_compute. reflexivity. Qed.
 
 (** non-vacuity: a 1-in/2-out transaction meets the hypotheses; the excluded shape really is ambiguous *)
 Definition ex_tx : tx :=
